@@ -362,6 +362,83 @@ GenNew(seed)     == [seed |-> seed, pos |-> 0]
 GenDraw(g, k)    == [out |-> [i \in 1..k |-> <<g.seed, g.pos + i>>], g |-> [g EXCEPT !.pos = @ + k]]
 
 \* ==================================================================================
+\* 7. SCALE.  Draws of 10^5 .. 2*10^6 values cannot be enumerated, but every clause about
+\*    them is an O(n) predicate that is decided by a small summary, and TLC checks on the
+\*    small scope (SamplerMC, family "law") the LAW that makes the summary sufficient:
+\*      - index selection: count / range / uniqueness are functions of
+\*        (count, min, max, number of distinct values)                    IdxThmSummary
+\*      - sky points: every clause is pointwise, so the clauses failing on a sequence are
+\*        the union of those failing on the blocks of ANY partition, and a block is
+\*        summarised by how many of its points fail each clause            CapThmBlocks
+\*      - a map is non-decreasing on the deviates drawn iff, after sorting the (deviate,
+\*        value) pairs, consecutive values do not decrease                 SmpThmSorted
+\*    The adapter records the summaries (blocks of 2^18 points, aligned with 2^20) of
+\*    draws whose sizes sit across and at 2^20 and 2^21; the clauses below judge them.
+\* ==================================================================================
+IdxSummary(vals) == [cnt |-> Len(vals), min |-> IF vals = <<>> THEN 0 ELSE VSeqMin(vals),
+                     max |-> IF vals = <<>> THEN 0 ELSE VSeqMax(vals), nd |-> Cardinality(VRange(vals))]
+IdxSumOK(c, s)   == /\ s.cnt = c.n
+                    /\ s.cnt > 0 => (0 <= s.min /\ s.max < c.imax)
+                    /\ c.unique => s.nd = s.cnt
+IdxThmSummary(c, vals) == IdxValsOK(c, vals) <=> IdxSumOK(c, IdxSummary(vals))
+\* o = [err, cnt, min, max, nd : Int, repro : BOOLEAN]
+IdxScaleFailing(c, o) ==
+    IF o.err # "none" THEN (IF IdxFeasible(c) /\ c.imax > 0 /\ c.n > 0 THEN {"unexpected_error"} ELSE {})
+    ELSE (IF o.cnt = c.n THEN {} ELSE {"count"})
+         \cup (IF o.cnt > 0 /\ ~(0 <= o.min /\ o.max < c.imax) THEN {"range"} ELSE {})
+         \cup (IF c.unique /\ o.nd # o.cnt THEN {"unique"} ELSE {})
+         \cup (IF o.repro THEN {} ELSE {"reproducible"})
+
+\* blocks of cap points: summary = how many points of the block fail each pointwise clause
+CapClauses == {"lon_range", "lat_range", "within", "radius_eq_sep"}
+BlkCount(c, pts, cl) == Cardinality({q \in DOMAIN pts : cl \in CapPtFailing(c, pts[q])})
+BlkSummary(c, pts) == [n |-> Len(pts), lon_range |-> BlkCount(c, pts, "lon_range"), lat_range |-> BlkCount(c, pts, "lat_range"),
+                       within |-> BlkCount(c, pts, "within"), radius_eq_sep |-> BlkCount(c, pts, "radius_eq_sep")]
+BlkAdd(a, b) == [n |-> a.n + b.n, lon_range |-> a.lon_range + b.lon_range, lat_range |-> a.lat_range + b.lat_range,
+                 within |-> a.within + b.within, radius_eq_sep |-> a.radius_eq_sep + b.radius_eq_sep]
+BlkFailing(b) == (IF b.lon_range > 0 THEN {"lon_range"} ELSE {}) \cup (IF b.lat_range > 0 THEN {"lat_range"} ELSE {})
+                 \cup (IF b.within > 0 THEN {"within"} ELSE {}) \cup (IF b.radius_eq_sep > 0 THEN {"radius_eq_sep"} ELSE {})
+CapThmBlocks(c, pts, k) ==        \* k \in 0..Len(pts): the split point
+    LET L == SubSeq(pts, 1, k)  R == SubSeq(pts, k + 1, Len(pts)) IN
+    /\ BlkAdd(BlkSummary(c, L), BlkSummary(c, R)) = BlkSummary(c, pts)
+    /\ BlkFailing(BlkSummary(c, L)) \cup BlkFailing(BlkSummary(c, R)) = UNION {CapPtFailing(c, pts[q]) : q \in DOMAIN pts}
+\* c = [n, getrad], o = [err, nret, cnt : Seq(Int), blocks : Seq(block summary)]
+CapScaleFailing(c, o) ==
+    IF o.err # "none" THEN {"unexpected_error"}
+    ELSE (IF o.nret = (IF c.getrad THEN 3 ELSE 2) /\ (\A k \in DOMAIN o.cnt : o.cnt[k] = c.n)
+             /\ VSum([k \in DOMAIN o.blocks |-> o.blocks[k].n]) = c.n THEN {} ELSE {"count"})
+         \cup UNION {BlkFailing(o.blocks[k]) : k \in DOMAIN o.blocks}
+\* boxes: blocks [n, lon_in_box, lat_in_box, lon_range, lat_range : counts of points failing]
+BoxBlkFailing(b) == (IF b.lon_in_box > 0 THEN {"lon_in_box"} ELSE {}) \cup (IF b.lat_in_box > 0 THEN {"lat_in_box"} ELSE {})
+                    \cup (IF b.lon_range > 0 THEN {"lon_range"} ELSE {}) \cup (IF b.lat_range > 0 THEN {"lat_range"} ELSE {})
+BoxScaleFailing(c, o) ==
+    IF o.err # "none" THEN {"unexpected_error"}
+    ELSE (IF (\A k \in DOMAIN o.cnt : o.cnt[k] = c.n) /\ VSum([k \in DOMAIN o.blocks |-> o.blocks[k].n]) = c.n
+          THEN {} ELSE {"count"})
+         \cup UNION {BoxBlkFailing(o.blocks[k]) : k \in DOMAIN o.blocks}
+         \cup (IF o.unit THEN {} ELSE {"xyz_not_unit"})
+\* monotone map from sorted pairs
+SmpPairMonotone(us, vs) == \A i, j \in DOMAIN us : us[i] < us[j] => vs[i] <= vs[j]
+SmpSortedMonotone(us, vs) ==
+    LET Before(i, j) == us[i] < us[j] \/ (us[i] = us[j] /\ (vs[i] < vs[j] \/ (vs[i] = vs[j] /\ i < j)))
+        RECURSIVE go(_)
+        go(P) == IF P = {} THEN <<>>
+                 ELSE LET mm == CHOOSE i \in P : \A j \in P \ {i} : Before(i, j) IN <<mm>> \o go(P \ {mm})
+        perm == go(DOMAIN us)
+    IN \A k \in 1..(Len(perm) - 1) : vs[perm[k]] <= vs[perm[k + 1]]
+SmpThmSorted(us, vs) == SmpPairMonotone(us, vs) <=> SmpSortedMonotone(us, vs)
+\* c = [kind, x, p, n], o = [err, cnt, ingbad, belowbad : Int, mono : BOOLEAN]
+\*   ingbad   : deviates above the first tabulated value whose value left the grid
+\*   belowbad : deviates below it whose value exceeds the right end of the leading stretch
+SmpScaleFailing(c, o) ==
+    IF ~SmpValid(c) \/ SmpDegenerate(SmpTable(c, 0)) THEN {"malformed_case"}
+    ELSE IF o.err # "none" THEN {"unexpected_error"}
+    ELSE (IF o.cnt = c.n THEN {} ELSE {"count"})
+         \cup (IF o.ingbad = 0 THEN {} ELSE {"in_grid"})
+         \cup (IF o.belowbad = 0 THEN {} ELSE {"monotone_below_first"})
+         \cup (IF o.mono THEN {} ELSE {"monotone"})
+
+\* ==================================================================================
 QFailing(op, c, o) ==
     CASE op = "smp"  -> SmpFailing(c, o)
       [] op = "smpr" -> SmpRealFailing(c, o)
@@ -369,5 +446,9 @@ QFailing(op, c, o) ==
       [] op = "idx"  -> IdxFailing(c, o)
       [] op = "box"  -> BoxFailing(c, o)
       [] op = "cap"  -> CapFailing(c, o)
+      [] op = "idxs" -> IdxScaleFailing(c, o)
+      [] op = "caps" -> CapScaleFailing(c, o)
+      [] op = "boxs" -> BoxScaleFailing(c, o)
+      [] op = "smps" -> SmpScaleFailing(c, o)
       [] OTHER       -> {"unknown_op"}
 =============================================================================
